@@ -157,8 +157,38 @@ def type_vars_ok(t, decls) -> bool:
     return True
 
 
+_STD_TYPEDEFS: dict = {}
+
+
+def std_typedef(ext, name):
+    """Type definition (from specification/std_extensions) of a standard extension type, or None."""
+    import json
+    import os
+
+    if not _STD_TYPEDEFS:
+        root = os.path.join(os.environ.get("VERIF_REPO", "/repo"), "specification", "std_extensions")
+        for dirpath, _, files in os.walk(root):
+            for fn in files:
+                if fn.endswith(".json"):
+                    with open(os.path.join(dirpath, fn)) as f:
+                        d = json.load(f)
+                    for k, v in d["types"].items():
+                        _STD_TYPEDEFS[(d["name"], k)] = v
+        _STD_TYPEDEFS[("", "")] = None
+    return _STD_TYPEDEFS.get((ext, name))
+
+
 def subst(t, args):
-    """Substitute encoded type args into an encoded type / row (for Call instantiation)."""
+    """Substitute encoded type args into an encoded type / row (for Call instantiation).
+    As in the reference implementation, the bound of an extension type whose definition derives it
+    from its parameters is recomputed after substitution (known for the standard extensions)."""
+    if isinstance(t, dict) and t.get("t") == "Opaque":
+        out = {k: subst(v, args) for k, v in t.items()}
+        td = std_typedef(out.get("extension"), out.get("id"))
+        if td and td["bound"].get("b") == "FromParams":
+            bs = [bound_of(out["args"][i]["ty"]) for i in td["bound"]["indices"] if i < len(out["args"]) and out["args"][i].get("tya") == "Type"]
+            out["bound"] = "A" if "A" in bs else "C"
+        return out
     if isinstance(t, list):
         out = []
         for x in t:
